@@ -163,6 +163,11 @@ func (impl *j5AnyImpl) getAny() (*any_j5t.Any, error) {
 	if impl.value.Has(impl.j5JsonField) {
 		out.J5Json = impl.value.Get(impl.j5JsonField).Bytes()
 	}
+	if out.Proto == nil && out.J5Json == nil {
+		// proto3 bytes fields have no presence: a message with every field at
+		// its default encodes to zero bytes, which reads back as 'not set'.
+		out.Proto = []byte{}
+	}
 	return out, nil
 }
 
